@@ -12,7 +12,7 @@ Mirrors, function for function (file:line of the provenance repository):
 * `IsReqAttrMatch` / `HasReqAttrMatch` / `FindUnmatchedReqAttrs`  x/exchange/market.go:697,686,674
 * `NormalizeName` (x/name/types/name.go:42), `NormalizeReqAttrs` (x/exchange/market.go:589)
 * `acctHasReqAttrs`, `CanCreateAsk/Bid/Commitment`            keeper/market.go:1250,1282-1297
-* `CreateMarket` (which lists it normalises)                  keeper/market.go:1449
+* `CreateMarket` (normalises the three required-attribute lists)  keeper/market.go:1449
 * `validateMarketIsAcceptingOrders`, `validateCreateAskFees`, `validateCreateBidFees`,
   `CreateAskOrder`, `CreateBidOrder`                          keeper/orders.go:442,469,477,624,668
 * `validateMarketIsAcceptingCommitments`, `addCommitment`,
@@ -261,10 +261,16 @@ structure Market where
   reqCommit : List String := []
   deriving Repr
 
-/-- keeper/market.go:1449 `CreateMarket`: what is written for a requested market.  The
-create-ask and create-bid lists are normalised; the create-commitment list is stored as
-given (the code has no `NormalizeReqAttrs` call for it). -/
+/-- keeper/market.go:1449 `CreateMarket`: what is written for a requested market.  All three
+required-attribute lists are normalised (`NormalizeReqAttrs`) before they are stored. -/
 def storeMarket (m : Market) : Market :=
+  { m with reqAsk := m.reqAsk.map normalizeName, reqBid := m.reqBid.map normalizeName,
+           reqCommit := m.reqCommit.map normalizeName }
+
+/-- `CreateMarket` as it was before provenance commit 7640f62e9: the create-ask and create-bid
+lists were normalised, the create-commitment list was stored as given.  Kept only for the
+historical witness `PvProofs.C20.commit_reqattr_not_normalised_before_fix`. -/
+def storeMarketPreFix (m : Market) : Market :=
   { m with reqAsk := m.reqAsk.map normalizeName, reqBid := m.reqBid.map normalizeName }
 
 /-! ### Funds: fee collection then hold -/
